@@ -341,16 +341,17 @@ func modelPulls(sp *caseSpec, eager bool, k int) (int, bool) {
 // ---- execution ------------------------------------------------------------------------
 
 type obs struct {
-	names    []string // library call sites applied (sources, steps, terminal)
-	stepsN   int      // number of library stages (sum of costs)
-	pulls    int
-	need     int
-	allow    int
-	checked  bool // laziness bound was applicable and checked
-	memo     bool // memoisation traversals were performed
-	outLen   int
-	final    int
-	listy    bool
+	names      []string // library call sites applied (sources, steps, terminal)
+	stepsN     int      // number of library stages (sum of costs)
+	pulls      int
+	need       int
+	allow      int
+	checked    bool // laziness bound was applicable and checked
+	memo       bool // memoisation traversals were performed
+	outLen     int
+	final      int
+	listy      bool
+	draftBound int
 }
 
 func (sp *caseSpec) demandForModel() int {
@@ -412,6 +413,13 @@ func exec(sp *caseSpec, site func(string)) (o obs, f *failure) {
 		}
 		o.allow = l + slack
 		o.checked = true
+		// informational: the bound need(k+S)+S of the first design draft (unsound after a sparse
+		// Filter closed by Take: the stages' look-ahead is not covered by more *final* outputs)
+		if nk, ok := modelPulls(sp, false, sp.demandForModel()+o.stepsN); ok {
+			o.draftBound = nk + o.stepsN
+		} else {
+			o.draftBound = 1 << 30
+		}
 		if sp.Unbounded {
 			e.limit = o.allow
 		}
@@ -711,6 +719,9 @@ func runCase(w *vrt.W, i int) {
 		if o.pulls > o.need {
 			w.Add("laziness.pulled_more_than_strictly_needed", 1)
 		}
+		if o.pulls > o.draftBound {
+			w.Add("laziness.lookahead_beyond_draft_bound_need_k_plus_S", 1)
+		}
 		if o.pulls < len(sp.Vals) || sp.Unbounded {
 			w.Add("laziness.source_not_exhausted", 1)
 		}
@@ -726,7 +737,7 @@ func runCase(w *vrt.W, i int) {
 	if nontrivial {
 		fpr := strings.Join(o.names, ">") + "|" + sp.Mode
 		w.Distinct(fpr)
-		if w.WantSample() && len(sp.Vals) <= 12 {
+		if w.WantSample() && len(sp.Vals) <= 12 && (o.checked || i%7 == 0) {
 			w.Sample(map[string]any{"case": describe(sp), "pulls": o.pulls, "need": o.need, "allowed": o.allow, "laziness_checked": o.checked})
 		}
 	}
@@ -789,9 +800,9 @@ func main() {
 		},
 		Cases: func(tier string, b int) int {
 			if tier == "thorough" {
-				return 40000
+				return 16000
 			}
-			return 8000
+			return 5000
 		},
 		Run: func(w *vrt.W) {
 			for i := w.From; i < w.To; i++ {
